@@ -363,6 +363,13 @@ class _G(object):
                     keys = rng.sample(keys, rng.randint(0, size))
                 m['rom'] = {'kind': 'dict', 'data': [[k, rand_val(rng, bw)] for k in sorted(keys)],
                             'pad': pad}
+                if not pad and size >= 2 and cfg.get('rom_holes_prob') and \
+                        rng.random() < cfg['rom_holes_prob']:
+                    # romdata with holes and no padding: reading a hole is refused by the
+                    # simulator with PyrtlError (fault 'rom_hole': the step is not a cycle)
+                    drop = set(rng.sample(range(size), rng.randint(1, max(1, size // 3))))
+                    m['rom']['data'] = [kv for kv in m['rom']['data'] if kv[0] not in drop]
+                    m['rom']['holes'] = True
             else:
                 m['rom'] = {'kind': 'func', 'data': [rng.getrandbits(min(bw, 60)) | 1,
                                                      rng.getrandbits(min(bw, 60))], 'pad': False}
@@ -593,3 +600,28 @@ def maybe_stage(rng, script, prob, uses):
         return script, None
     st['use'] = rng.choice(uses)
     return s2, st
+
+
+def split_rom_holes(script, init, cycles):
+    """-> (cycles that are cycles, reject faults). A stimulus under which the reference model
+    reads a ROM hole is not a cycle: it is taken out of the tape and offered, as a fault, right
+    before the next real cycle; the simulator must refuse it and go on as if nothing happened."""
+    if not any(m.get('rom') and m['rom'].get('holes') for m in script['mems']):
+        return cycles, []
+    from .common import RomHole
+    from .refsim import DoubleWrite
+    from . import world
+    ref = world.ref_for(script, init)
+    clean, faults = [], []
+    for cyc in cycles:
+        try:
+            ref.step(cyc)
+        except RomHole:
+            faults.append({'kind': 'reject_step', 'at': len(clean), 'wire': None,
+                           'value': 'rom_hole', 'inputs': dict(cyc)})
+            continue
+        except DoubleWrite:
+            clean.append(cyc)
+            break
+        clean.append(cyc)
+    return clean, faults
